@@ -12,6 +12,7 @@ correspond(): (1) random operation sequences on a REAL ss.People attached to a m
 search():     the invariants of the property evaluated directly on the real objects at every recorded call of generated
               demographic sims and of random operation sequences (no model).
 """
+import sys, pickle
 import numpy as np
 from harness import impl
 from harness.props.c11 import cv, nats, toks, TYPES, make_arr, err_kind
@@ -65,10 +66,24 @@ def lst(s):
     return [] if s == '-' else s.split(',')
 
 
+def close(a, b):
+    from harness.props.c11 import num_of
+    if a == b or a == '_': return True
+    x, y = num_of(a), num_of(b)
+    if x is None or y is None: return False
+    return abs(x - y) <= max(abs(x), 1) / 2 ** 20
+
+
 def compare(obs, ml, sim_mode=False):
     """ observation vs model line; None when they agree """
     if ml == 'bad-op': return 'model rejected the operation line'
     m = parse_model(ml)
+    if 'age_after' in obs:
+        if m['st'] != 'ok': return f"ageing: model {m['st']}"
+        ma = lst(m['age'])
+        if len(ma) != len(obs['age_after']) or not all(close(a, b) for a, b in zip(ma, obs['age_after'])):
+            return f"ages after update_post: impl={toks(obs['age_after'])} model={m['age']}"
+        return None
     if obs['st'] != m['st']:
         return f"outcome: impl={obs['st']} ({obs.get('msg', '')}) model={m['st']}"
     if obs['st'] != 'ok': return None
@@ -141,6 +156,18 @@ class RealPeople:
                 p.remove_dead()
             elif o == 'finish':
                 p.finish_step(); sim.finish_step()
+            elif o == 'copy':
+                import sciris as sc
+                try:
+                    self.sim = pickle.loads(pickle.dumps(self.sim)) if op[1] == 'pickle' else sc.dcp(self.sim)
+                except (AttributeError, pickle.PicklingError, TypeError):
+                    self.sim = sc.dcp(self.sim)        # harness-local classes / closures are not picklable: deep copy uses the same __getstate__/__setstate__ protocol
+                self.p = p = self.sim.people; sim = self.sim
+            elif o == 'age':
+                before = [cv(x) for x in np.asarray(p.age.raw)]
+                p.update_post()
+                extra['age_before'] = before; extra['age_after'] = [cv(x) for x in np.asarray(p.age.raw)]
+                extra['dt'] = cv(np.float64(sim.t.dt_year)) if sim.pars.use_aging else '0'
             elif o == 'register':
                 a = make_arr(op[1])
                 a.link_people(p)
@@ -163,6 +190,8 @@ class RealPeople:
         if o == 'grow': return f'grow {op[1]}' if op[2] is None else f'grow {len(op[2]) if op[3] != "both" else op[1]} {nats(op[2])}'
         if o == 'request': return f'request {nats(op[1])}'
         if o == 'register': return 'register'
+        if o == 'copy': return 'state'
+        if o == 'age': return None      # filled in from the observation (needs the ages before)
         return o
 
 
@@ -176,12 +205,12 @@ def gen_header(rng):
     return dict(n0=n0, arrays=arrays, seed=rng.randint(0, 999), ops=[])
 
 
-def gen_op(rng, w):
+def gen_op(rng, w, only=None):
     p = w.p
     n = int(p.uid.len_used); tot = int(p.uid.len_tot)
     au = [int(u) for u in p.auids]
     alive_au = [u for u in au if bool(p.alive.raw[u])]
-    r = rng.random()
+    r = rng.random() if only is None else 0.0
     if r < 0.20:
         spare = tot - n
         k = min(rng.choice([spare, spare + 1, 1, 1, 2, tot // 2, tot // 2 + 1, max(spare - 1, 0), 0, 3]), 40)
@@ -196,7 +225,9 @@ def gen_op(rng, w):
         else: us = [rng.randrange(n) for _ in range(rng.randint(1, 4))]          # any created agent, repeats, already dead
         if rng.random() < 0.3: us = us + us[:1]
         return ['request', us]
-    if r < 0.60: return ['stepdie']
+    if r < 0.58: return ['stepdie']
+    if r < 0.60: return ['copy', rng.choice(['pickle', 'deepcopy'])]
+    if r < 0.62: return ['age']
     if r < 0.70 and int(w.sim.t.ti) < 110: return ['results']
     if r < 0.78: return ['removedead']
     if r < 0.93 and int(w.sim.t.ti) < 110: return ['finish']
@@ -207,16 +238,54 @@ def gen_op(rng, w):
     return ['stepdie']
 
 
-def run_sequence(rng, nops):
-    case = gen_header(rng)
+def op_line(w, op, obs):
+    if op[0] == 'age':
+        return f"age {obs.get('dt', '0')} {toks(obs.get('age_before', []))}"
+    return w.line(op)
+
+
+def gen_structured(rng, w):
+    """ operations in the order the simulation loop issues them: births/requests, step_die, results, (late request), finish """
+    ph = getattr(w, 'phase', 'pre')
+    p = w.p; n = int(p.uid.len_used); au = [int(u) for u in p.auids]
+    gone = sorted(set(range(n)) - set(au))
+    if ph == 'pre':
+        r = rng.random()
+        if r < 0.30 or w.npre >= 4:
+            w.phase = 'post1'; w.npre = 0; return ['stepdie']
+        w.npre += 1
+        if r < 0.50: return gen_op(rng, w, only='grow')
+        if r < 0.62 and gone: return ['request', rng.sample(gone, min(len(gone), rng.randint(1, 3))) + (rng.sample(au, 1) if au and rng.random() < 0.5 else [])]   # already removed agents
+        if r < 0.90 and au:
+            us = rng.sample(au, rng.randint(1, max(1, len(au) // 4)))
+            return ['request', us + (us[:2] if rng.random() < 0.5 else [])]          # several requests for one agent
+        if r < 0.95: return ['copy', rng.choice(['pickle', 'deepcopy'])]
+        return ['age']
+    if ph == 'post1':
+        w.phase = 'post2'; return ['results']
+    if ph == 'post2':
+        if rng.random() < 0.2 and au and not getattr(w, 'did_late', False):
+            w.did_late = True
+            return ['request', rng.sample(au, 1), 'late']
+        w.phase = 'pre'; w.did_late = False
+        return ['finish'] if int(w.sim.t.ti) < 110 else ['removedead']
+    raise HarnessError(ph)
+
+
+def run_sequence(rng, nops, structured=None, fixed=None):
+    case = dict(fixed, ops=[]) if fixed else gen_header(rng)
+    if structured is None: structured = rng.random() < 0.5
+    case['structured'] = bool(structured)
     w = RealPeople(case)
+    w.phase = 'pre'; w.npre = 0
     lines = [w.init_line()]
     log = [(None, dict(st='ok', obs=observe(w.p, w.sim, [])))]
-    for _ in range(nops):
-        op = gen_op(rng, w)
+    todo = [list(o) for o in fixed['ops']] if fixed else [None] * nops
+    for fop in todo:
+        op = fop if fop is not None else (gen_structured(rng, w) if structured else gen_op(rng, w))
         obs = w.exec(op)
         case['ops'].append(op)
-        lines.append(w.line(op)); log.append((op, obs))
+        lines.append(op_line(w, op, obs)); log.append((op, obs))
         if obs['st'] != 'ok' and op[0] == 'grow':
             break     # People.grow raised half-way through the registry (only after a mis-sized late registration)
     return case, lines, log, w
@@ -248,11 +317,58 @@ def gen_sim_cfg(rng, k):
     return cfg
 
 
+def route_uids(r):
+    """ every agent identifier a transmission route currently refers to (edges of networks, explicit src/dst of mixing pools) """
+    import starsim as ss
+    out = set()
+    ed = getattr(r, 'edges', None)
+    if ed is not None:
+        for k in ('p1', 'p2'):
+            if k in ed: out |= set(int(u) for u in np.asarray(ed[k]))
+    pars = getattr(r, 'pars', None)
+    for k in ('src', 'dst'):
+        v = pars.get(k) if pars is not None and hasattr(pars, 'get') else None
+        if isinstance(v, ss.uids): out |= set(int(u) for u in v)
+    for sub in getattr(r, 'pools', []) or []:
+        out |= route_uids(sub)
+    return sorted(out)
+
+
+def build_custom(cfg, extra):
+    """ scenario sims that impl.build_sim cannot express: mixing pools with explicit uids, Births, several death modules """
+    import starsim as ss
+    n = cfg['n_agents']
+    nets = []
+    for nd in cfg.get('networks', []):
+        if nd['type'] == 'mixingpool':
+            nets.append(ss.MixingPool(beta=1.0, src=ss.uids(np.arange(0, n // 2)), dst=ss.uids(np.arange(n // 4, n)), contacts=ss.poisson(1.0)))
+        elif nd['type'] == 'random': nets.append(ss.RandomNet(n_contacts=nd.get('n_contacts', 4)))
+        elif nd['type'] == 'erdosrenyi': nets.append(ss.ErdosRenyiNet(p=nd.get('p', 0.05)))
+        elif nd['type'] == 'mf': nets.append(ss.MFNet(duration=nd.get('duration', 3)))
+        elif nd['type'] == 'maternal': nets.append(ss.MaternalNet())
+    dem = []
+    for d in cfg.get('demographics', []):
+        if d['type'] == 'births': dem.append(ss.Births(birth_rate=d.get('birth_rate', 40)))
+        elif d['type'] == 'deaths': dem.append(ss.Deaths(death_rate=d.get('death_rate', 40), name=d.get('name', 'deaths')))
+        elif d['type'] == 'pregnancy':
+            dem.append(ss.Pregnancy(fertility_rate=d.get('fertility_rate', 100), p_maternal_death=ss.bernoulli(d.get('p_maternal_death', 0.2)),
+                                    p_neonatal_death=ss.bernoulli(d.get('p_neonatal_death', 0.5))))
+    dis = []
+    for d in cfg.get('diseases', []):
+        if d['type'] == 'sir': dis.append(ss.SIR(beta=d.get('beta', 0.3), init_prev=d.get('init_prev', 0.3), dur_inf=d.get('dur_inf', 2), p_death=d.get('p_death', 0.5), name=d.get('name', 'sir')))
+        elif d['type'] == 'sis': dis.append(ss.SIS(beta=d.get('beta', 0.3), init_prev=d.get('init_prev', 0.3), name=d.get('name', 'sis')))
+    pars = dict(n_agents=n, rand_seed=cfg.get('rand_seed', 1), verbose=0, unit='year', dt=cfg.get('dt', 1.0), start=2000, dur=cfg.get('dur', 8),
+                diseases=dis, networks=nets)
+    if dem: pars['demographics'] = dem
+    if extra: pars['interventions'] = list(extra)
+    return ss.Sim(**pars)
+
+
 def record_sim(cfg, extra_module=None):
     """ run a sim with People.grow/request_death/step_die/update_results/finish_step recorded; returns the history """
     import starsim as ss
     P = ss.People
-    hist = []; state = dict(sim=None, written=[], phase='pre')
+    hist = []; state = dict(sim=None, written=[], phase='pre', hooks=dict(disease_die=[], route_remove=[]))
     orig = {k: getattr(P, k) for k in ('grow', 'request_death', 'step_die', 'update_results', 'finish_step')}
 
     def snap(p):
@@ -274,6 +390,11 @@ def record_sim(cfg, extra_module=None):
             elif name == 'request_death':
                 us = a[0] if a else kw.get('uids')
                 e['uids'] = [int(u) for u in np.asarray(us.uids if hasattr(us, 'uids') and not isinstance(us, np.ndarray) else us).reshape(-1)]
+                fr = sys._getframe(1)
+                owner = fr.f_locals.get('self')
+                e['site'] = 'synthetic' if getattr(owner, '_verif_synthetic', False) else f"{type(owner).__name__ if owner is not None else '?'}.{fr.f_code.co_name}"
+                age = np.asarray(self.age.raw)
+                e['prenatal'] = [bool(u < len(age) and age[u] < 0) for u in e['uids']]
             elif name == 'step_die':
                 e['died'] = [int(u) for u in out]
                 post = np.asarray(self.alive.raw[:self.uid.len_used])
@@ -283,6 +404,12 @@ def record_sim(cfg, extra_module=None):
             elif name == 'update_results':
                 if ti not in state['written']: state['written'].append(ti)
             e['obs'] = snap(self)
+            if name == 'step_die':
+                e['hooks'] = [h for h in state['hooks']['disease_die'] if h[1] == ti]
+                e['n_diseases'] = sum(1 for d in state['sim'].diseases() if isinstance(d, ss.Disease))
+            if name == 'finish_step':
+                e['route_calls'] = [h for h in state['hooks']['route_remove'] if h[1] == ti]
+                e['routes'] = {k: route_uids(r) for k, r in state['sim'].networks.items()}
             if name == 'finish_step':
                 state['phase'] = 'pre'
                 e['obs']['ti'] = ti + 1          # the clock tick of Sim.finish_step follows immediately
@@ -291,16 +418,34 @@ def record_sim(cfg, extra_module=None):
         return w
 
     for k in orig: setattr(P, k, wrap(k))
+    hooks = dict(disease_die=[], route_remove=[])
+    state['hooks'] = hooks
     try:
-        extra = [extra_module()] if extra_module else None
-        sim = impl.build_sim(cfg, extra_interventions=extra)
+        extra = [m() for m in (extra_module if isinstance(extra_module, (list, tuple)) else [extra_module])] if extra_module else None
+        sim = impl.build_sim(cfg, extra_interventions=extra) if not cfg.get('custom') else build_custom(cfg, extra)
         sim.init()
         state['sim'] = sim
+        # observe (do not alter) the death hooks of every disease and the clean-up of every route
+        for d in sim.diseases():
+            if isinstance(d, ss.Disease):
+                def mk(d, f):
+                    def w(uids, *a, **kw):
+                        hooks['disease_die'].append((d.name, int(sim.t.ti), [int(u) for u in uids]))
+                        return f(uids, *a, **kw)
+                    return w
+                d.step_die = mk(d, d.step_die)
+        for key, r in sim.networks.items():
+            def mk(key, f):
+                def w(uids, *a, **kw):
+                    hooks['route_remove'].append((key, int(sim.t.ti), [int(u) for u in uids]))
+                    return f(uids, *a, **kw)
+                return w
+            r.remove_uids = mk(key, r.remove_uids)
         start = observe(sim.people, sim, [])
         sim.run()
     finally:
         for k, f in orig.items(): setattr(P, k, f)
-    return dict(start=start, hist=hist, sim=sim)
+    return dict(start=start, hist=hist, sim=sim, hooks=hooks)
 
 
 def sim_lines(rec):
@@ -329,17 +474,20 @@ def correspond(ctx):
     all_lines = []; per = []
     for k in range(nseq):
         try:
-            case, lines, log, w = run_sequence(ctx.rng, 40)
+            case, lines, log, w = run_sequence(ctx.rng, 40, structured=(k % 2 == 0))
         except Exception as e:
             import traceback
             ctx.broke('correspondence', 'C10.opseq', f'implementation harness raised {type(e).__name__}: {e}\n{traceback.format_exc()[-1200:]}')
             continue
         per.append(('seq', case, lines, log, len(all_lines))); all_lines += lines
     nsim = ctx.budget(8, 60)
-    for k in range(nsim):
-        cfg = gen_sim_cfg(ctx.rng, k)
+    for k in range(nsim + len(FIXED_SIMS)):
+        if k < len(FIXED_SIMS):
+            cfg = FIXED_SIMS[k][1]; extra = fixed_extra(FIXED_SIMS[k][2])
+        else:
+            cfg = gen_sim_cfg(ctx.rng, k); extra = None
         try:
-            rec = record_sim(cfg)
+            rec = record_sim(cfg, extra)
         except Exception as e:
             import traceback
             ctx.broke('correspondence', 'C10.sim', f'recording a generated sim raised {type(e).__name__}: {e}\n{traceback.format_exc()[-1200:]}', data=cfg)
@@ -383,6 +531,7 @@ class Tracker:
         self.requests_pre = {}     # ti -> uids requested before death resolution of that step
         self.requests_post = {}    # ti -> uids requested after it
         self.late_pending = set()
+        self.late_site = {}        # uid -> (requesting site, 'prenatal' | 'born') of a request made after death resolution
         self.fails = []
 
     def bad(self, oracle, what, **sig):
@@ -426,10 +575,18 @@ class Tracker:
             for nm in ('alive', 'tidead', 'parent'):
                 if o[nm][1][:prev['n']] != prev[nm][1][:prev['n']]: self.bad('values-preserved', f'{where}: grow changed existing values of people.{nm}', array=nm)
             if any(x != 'T' for x in o['alive'][1][prev['n']:o['n']]): self.bad('values-preserved', f'{where}: new agents are not alive')
+            if any(x != 'nan' for x in o['tidead'][1][prev['n']:o['n']]):
+                self.bad('new-agent-defaults', f"{where}: new agents {list(range(prev['n'], o['n']))[:6]} already carry a death stamp {o['tidead'][1][prev['n']:o['n']][:6]} (ti_dead must start unset)", array='ti_dead')
+            if any(x != '-1' for x in o['parent'][1][prev['n']:o['n']]):
+                self.bad('new-agent-defaults', f"{where}: new agents start with parent {o['parent'][1][prev['n']:o['n']][:6]} instead of -1", array='parent')
             self.created += k
         elif op == 'request_death':
             (self.requests_pre if e['phase'] == 'pre' else self.requests_post).setdefault(ti, set()).update(e['uids'])
-            if e['phase'] == 'post': self.late_pending.update(u for u in e['uids'] if u in set(o['au']) and o['alive'][1][u] == 'T')
+            if e['phase'] == 'post':
+                for j, u in enumerate(e['uids']):
+                    if u in set(o['au']) and o['alive'][1][u] == 'T':
+                        self.late_pending.add(u)
+                        self.late_site[u] = (e.get('site', '?'), 'prenatal' if (e.get('prenatal') or [False] * len(e['uids']))[j] else 'born')
         elif op == 'step_die':
             if e['revived']: self.bad('permanent', f'{where}: step_die revived {e["revived"][:5]}')
             flipped = set(e['flipped'])
@@ -439,6 +596,15 @@ class Tracker:
             late = set(u for u in self.requests_post.get(ti - 1, ()) if u in set(prev['au']) and prev['alive'][1][u] == 'T')
             if not late <= flipped: self.bad('death-timing', f'{where}: agents {sorted(late - flipped)[:5]} requested after the previous death resolution are still alive')
             self.died_now = len(flipped); self.flipped_now = flipped; self.died += len(flipped)
+            # every disease's death hook is called exactly once, for exactly the agents death resolution selected
+            if 'hooks' in e:
+                by = {}
+                for name, _, us in e['hooks']: by.setdefault(name, []).append(us)
+                if len(by) != e['n_diseases'] or any(len(v) != 1 for v in by.values()):
+                    self.bad('disease-hook', f"{where}: disease.step_die was called {[(k, len(v)) for k, v in by.items()]} times for {e['n_diseases']} diseases", site='People.step_die')
+                for name, calls in by.items():
+                    if sorted(calls[0]) != sorted(e['died']) or not flipped <= set(calls[0]):
+                        self.bad('disease-hook', f"{where}: {name}.step_die got {sorted(calls[0])[:8]} but the agents that die are {sorted(e['died'])[:8]}", site='People.step_die')
         elif op == 'update_results':
             na = dict(o['nalive']).get(ti); nd = dict(o['newdeaths']).get(ti)
             alive_now = sum(1 for u in o['au'] if o['alive'][1][u] == 'T')
@@ -452,16 +618,32 @@ class Tracker:
                 # agents that died in this step but whose stamp is not this step: are they all late requests?
                 unrec = set(u for u in fl if o['tidead'][1][u] != str(ti))
                 latecause = bool(unrec) and unrec <= self.late_pending and nd == died_now - len(unrec)
+                sites = sorted({self.late_site.get(u, ('?', '?')) for u in unrec}) if latecause else []
+                sig = dict(cause='request-after-resolution' if latecause else 'other')
+                if latecause:
+                    sig['site'] = sites[0][0] if len({x[0] for x in sites}) == 1 else 'several'
+                    sig['subject'] = sites[0][1] if len({x[1] for x in sites}) == 1 else 'mixed'
                 self.bad('death-flow', f'{where}: new_deaths[{ti}]={nd} but {died_now} agents died in this step' +
-                         (f' ({len(unrec)} of them were requested after the death-resolution phase of step {ti - 1} and stamped {ti - 1})' if latecause else ''),
-                         cause='request-after-resolution' if latecause else 'other')
+                         (f' ({len(unrec)} of them were requested after the death-resolution phase of step {ti - 1} by {sites} and stamped {ti - 1})' if latecause else ''),
+                         **sig)
             self.late_pending -= getattr(self, 'flipped_now', set())
             self.last_nalive = na; self.created = 0; self.died = 0; self.died_now = 0; self.flipped_now = set()
         elif op == 'finish_step':
             alive = o['alive'][1]
             want = [u for u in prev['au'] if alive[u] == 'T']
             if o['au'] != want: self.bad('active', f'{where}: auids after removal {o["au"][:10]}… is not the living active agents {want[:10]}…', site='People.remove_dead')
-            self.removed |= set(prev['au']) - set(o['au'])
+            gone = set(prev['au']) - set(o['au'])
+            self.removed |= gone
+            act = set(o['au'])
+            for key, us in (e.get('routes') or {}).items():
+                stray = [u for u in us if u not in act]
+                if stray:
+                    self.bad('route-cleanup', f"{where}: transmission route `{key}` still refers to agents {stray[:8]} that are no longer active", site='People.remove_dead')
+            if gone and 'route_calls' in e:
+                called = {k for k, _, us in e['route_calls'] if gone <= set(us)}
+                missing = [k for k in (e.get('routes') or {}) if k not in called]
+                if missing:
+                    self.bad('route-cleanup', f"{where}: remove_uids was not called with the removed agents for the routes {missing}", site='People.remove_dead')
         self.prev = o
 
 
@@ -477,7 +659,7 @@ def oracle_sim(cfg, extra_module=None):
     return tr.fails, dict(dead=dead_total, recorded=int(np.sum(sim.results.new_deaths.values if hasattr(sim.results.new_deaths, 'values') else sim.results.new_deaths)))
 
 
-OPMAP = dict(grow='grow', request='request_death', stepdie='step_die', results='update_results', finish='finish_step')
+OPMAP = dict(grow='grow', request='request_death', stepdie='step_die', results='update_results', finish='finish_step', copy='copy', age='update_post')
 
 
 def oracle_opseq(case):
@@ -485,6 +667,7 @@ def oracle_opseq(case):
     w = RealPeople(case)
     tr = Tracker(observe(w.p, w.sim, []))
     phase = 'pre'
+    structured = bool(case.get('structured'))
     for op in case['ops']:
         ti = int(w.sim.t.ti)
         pre_alive = np.asarray(w.p.alive.raw[:w.p.uid.len_used]).copy()
@@ -501,6 +684,23 @@ def oracle_opseq(case):
                 tr.bad('late-registration', f"a state registered when {len(o['au'])} of {o['n']} agents are active has len_used={lu}, len_tot={lt}: it is sized by the active agents, not by the uid space", site='Arr.init_vals')
                 break
             tr.prev = o; continue
+        if op[0] == 'copy':
+            # a pickled / deep-copied sim must carry exactly the same population
+            keys = ('n', 'ti', 'au', 'uid', 'slot', 'parent', 'alive', 'tidead', 'states')
+            diff = [k for k in keys if o[k] != tr.prev[k]]
+            if diff: tr.bad('copy', f"after a {op[1]} round-trip of the sim the population differs in {diff}: e.g. {str(tr.prev[diff[0]])[:80]} -> {str(o[diff[0]])[:80]}", how=op[1])
+            tr.prev = o; continue
+        if op[0] == 'age':
+            from harness.props.c11 import num_of
+            act_alive = set(u for u in o['au'] if o['alive'][1][u] == 'T')
+            dt = num_of(obs['dt'])
+            for u, (a, b) in enumerate(zip(obs['age_before'], obs['age_after'])):
+                x, y = num_of(a), num_of(b)
+                want = (x + dt) if (u in act_alive and x is not None) else x
+                if (want is None) != (y is None) or (want is not None and abs(want - y) > max(abs(want), 1) / 2 ** 20):
+                    tr.bad('ageing', f"update_post: agent {u} ({'living, active' if u in act_alive else 'dead / removed / spare'}) went from age {a} to {b}, expected {want}")
+                    break
+            tr.prev = o; continue
         if op[0] == 'removedead':
             tr.structural(o, 'after remove_dead')
             want = [u for u in tr.prev['au'] if o['alive'][1][u] == 'T']
@@ -509,14 +709,15 @@ def oracle_opseq(case):
         e = dict(op=OPMAP[op[0]], ti=ti, phase=phase, obs=o)
         if op[0] == 'grow':
             e['k'] = op[1] if (op[2] is None or op[3] == 'both') else len(op[2]); e['new'] = obs.get('new', [])
-        elif op[0] == 'request': e['uids'] = op[1]
+        elif op[0] == 'request':
+            e['uids'] = op[1]; e['site'] = 'synthetic'; e['prenatal'] = [False] * len(op[1])
         elif op[0] == 'stepdie':
             post = np.asarray(w.p.alive.raw[:n_before])
             e['died'] = obs['died']; e['flipped'] = [int(u) for u in np.nonzero(pre_alive & ~post)[0]]; e['revived'] = [int(u) for u in np.nonzero(~pre_alive & post)[0]]
             phase = 'post'
         elif op[0] == 'finish': phase = 'pre'
         # in free-form sequences results/step_die may be called several times per step: only structural + per-call checks apply
-        if op[0] == 'results':
+        if op[0] == 'results' and not structured:
             tr.structural(o, f'after update_results at ti={ti}')
             alive_now = sum(1 for u in o['au'] if o['alive'][1][u] == 'T')
             if dict(o['nalive']).get(ti) != alive_now: tr.bad('balance', f'n_alive[{ti}]={dict(o["nalive"]).get(ti)} but {alive_now} active agents are alive')
@@ -530,12 +731,65 @@ def late_request_module():
     import starsim as ss
 
     class LateKiller(ss.Intervention):
+        _verif_synthetic = True
         def step(self): pass
         def finish_step(self):
             super().finish_step()
             if self.sim.ti == 3:
                 self.sim.people.request_death(ss.uids([1, 2, 3]))
     return LateKiller()
+
+
+def rerequester_module():
+    """ keeps requesting the death of agents that were removed in earlier steps, and of some living ones (before death resolution) """
+    import starsim as ss
+
+    class ReRequester(ss.Intervention):
+        def step(self):
+            p = self.sim.people
+            n = int(p.uid.len_used)
+            gone = np.setdiff1d(np.arange(n), np.asarray(p.auids))
+            us = list(gone[:5]) + list(np.asarray(p.auids)[:2])
+            if len(us): p.request_death(ss.uids(np.array(us, dtype=np.int64)))
+    return ReRequester()
+
+
+def twin_killers():
+    """ two modules asking for the same agents in the same step """
+    import starsim as ss
+
+    class KillerA(ss.Intervention):
+        def step(self):
+            p = self.sim.people
+            p.request_death(ss.uids(np.asarray(p.auids)[3:9]))
+
+    class KillerB(KillerA):
+        pass
+    return [KillerA, KillerB]
+
+
+# sims that every run executes, whatever the seed: each names the clause of the property it is there for
+FIXED_SIMS = [
+    ('routes are cleaned up on removal (MixingPool with explicit uids + networks), disease death hooks',
+     dict(custom=True, n_agents=80, rand_seed=3, dur=8, diseases=[dict(type='sir', p_death=0.6, init_prev=0.4)],
+          networks=[dict(type='mixingpool'), dict(type='random'), dict(type='erdosrenyi')], demographics=[dict(type='deaths', death_rate=120)]), None),
+    ('Births (regrowth across reallocation) + two Deaths modules + two diseases requesting the same agents',
+     dict(custom=True, n_agents=60, rand_seed=5, dur=10, diseases=[dict(type='sir', p_death=0.8, init_prev=0.5, name='sir1'), dict(type='sir', p_death=0.8, init_prev=0.5, name='sir2')],
+          networks=[dict(type='random')], demographics=[dict(type='births', birth_rate=120), dict(type='deaths', death_rate=150, name='deaths1'), dict(type='deaths', death_rate=150, name='deaths2')]), None),
+    ('Pregnancy (drawn slots, maternal + neonatal death) with maternal / mf networks',
+     dict(custom=True, n_agents=120, rand_seed=7, dur=10, diseases=[dict(type='sis')], networks=[dict(type='maternal'), dict(type='mf')],
+          demographics=[dict(type='pregnancy', fertility_rate=600, p_maternal_death=0.5, p_neonatal_death=1.0), dict(type='deaths', death_rate=60)]), None),
+    ('repeated requests for already removed agents; two modules requesting the same death in one step',
+     dict(custom=True, n_agents=50, rand_seed=9, dur=8, diseases=[dict(type='sir', p_death=0.3)], networks=[dict(type='random')],
+          demographics=[dict(type='deaths', death_rate=100)]), 'rerequest+twins'),
+]
+
+
+def fixed_extra(tag):
+    if tag == 'rerequest+twins':
+        a, b = twin_killers()
+        return [rerequester_module, lambda: a(), lambda: b()]
+    return None
 
 
 def search(ctx):
@@ -550,10 +804,20 @@ def search(ctx):
         ctx.count('oracle_sims'); ctx.count('oracle_sim_deaths', tot['dead'])
         for sig, what in fails:
             ctx.fail(sig, what, dict(kind='sim', cfg=cfg))
+    for why, cfg, tag in FIXED_SIMS:
+        try:
+            fails, tot = oracle_sim(cfg, fixed_extra(tag))
+        except Exception as e:
+            import traceback
+            ctx.fail(dict(oracle='raises', op='sim.run'), f'the fixed scenario sim [{why}] raised {type(e).__name__}: {e} {traceback.format_exc()[-300:]}', dict(kind='fixed-sim', cfg=cfg, tag=tag))
+            continue
+        ctx.count('oracle_fixed_sims'); ctx.count('oracle_sim_deaths', tot['dead'])
+        for sig, what in fails:
+            ctx.fail(sig, what, dict(kind='fixed-sim', cfg=cfg, tag=tag))
     # operation sequences
     for k in range(ctx.budget(40, 300)):
         try:
-            case, lines, log, w = run_sequence(ctx.rng, 40)
+            case, lines, log, w = run_sequence(ctx.rng, 40, structured=(k % 2 == 0))
         except Exception as e:
             ctx.fail(dict(oracle='raises', op='init'), f'a minimal sim could not be initialised: {type(e).__name__}: {e}', dict(kind='none'))
             continue
@@ -570,6 +834,8 @@ def search(ctx):
 def replay_fails(data):
     if data.get('kind') == 'sim':
         return oracle_sim(data['cfg'])[0]
+    if data.get('kind') == 'fixed-sim':
+        return oracle_sim(data['cfg'], fixed_extra(data.get('tag')))[0]
     if data.get('kind') == 'late-module':
         return oracle_sim(data['cfg'], late_request_module)[0]
     if data.get('kind') == 'opseq':
